@@ -624,7 +624,13 @@ func merge(rs []*ShardResult) *ShardResult {
 			m.Nontrivial[k] = struct{}{}
 		}
 		for _, s := range r.Samples {
-			if len(m.Samples) < 6 {
+			dup := false
+			for _, o := range m.Samples {
+				if o == s {
+					dup = true
+				}
+			}
+			if !dup && len(m.Samples) < 6 {
 				m.Samples = append(m.Samples, s)
 			}
 		}
@@ -701,7 +707,7 @@ func writeEvidence(p *Prop, tier string, seed int64, m *ShardResult, wall float6
 		"traces_validated_against_impl": traces,
 		"exhaustive":                    len(m.Caps) == 0,
 		"bounds":                        bounds,
-		"caps_hit":                      m.Caps,
+		"caps_hit":                      append([]string{}, m.Caps...),
 		"counters":                      m.Counters,
 		"known_findings_matched":        known,
 		"explanation":                   "bounded-exhaustive exploration of the real implementation; no separate model, so every explored trace is an implementation trace",
